@@ -10,6 +10,7 @@ Anything outside the fragment raises OutsideFragment -> UNDECIDED (exit 2), neve
 """
 import json
 import os
+import re
 import subprocess
 
 from .poly import Poly, S, C, R_BLS, witness_nonzero
@@ -1044,6 +1045,14 @@ class Interp:
             return self.arith(op, l, r, e)
         if op in ("==", "!="):
             l, r = _deref(l), _deref(r)
+            isopt_ = lambda x: isinstance(x, VOpaque) and x.name in ("Some", "None") and len(x.args) == (1 if x.name == "Some" else 0)
+            if isopt_(l) and isopt_(r):
+                # Option equality: same constructor and equal payloads
+                if l.name != r.name:
+                    return op != "=="
+                if l.name == "None":
+                    return op == "=="
+                l, r = _deref(l.args[0]), _deref(r.args[0])
             if isinstance(l, int) and isinstance(r, int):
                 return (l == r) if op == "==" else (l != r)
             if isinstance(l, (Poly, int)) and isinstance(r, (Poly, int)) and not as_poly(l).vars() and not as_poly(r).vars():
@@ -1892,6 +1901,8 @@ class Interp:
                         files.append(cand)
             if "src/lib.rs" not in files and os.path.exists(os.path.join(root, "src/lib.rs")):
                 files.append("src/lib.rs")
+        if not want_recv:
+            files = self._use_resolved_files(short) + files
         for rel in files:
             for path in fn_paths(root, rel):
                 if (path == short or path.endswith("::" + short)) and not path.startswith("test"):
@@ -1903,6 +1914,42 @@ class Interp:
                     if has_recv == want_recv:
                         return ast, f"{rel}::{path}"
         return None, None
+
+    def _use_resolved_files(self, short):
+        """files named by the `use` declarations of the unit's own file that import `short` (`use crate::a::b::short;`,
+        `use super::b::{x, short};`): the module path is mapped to src/a/b.rs or src/a/b/mod.rs"""
+        root, rel0 = self.file_root[0], self.file_root[1]
+        try:
+            txt = open(os.path.join(root, rel0), errors="replace").read()
+        except OSError:
+            return []
+        here = rel0[:-3].split("/")[1:]             # src/a/b/c.rs -> [a, b, c]
+        if here and here[-1] in ("mod", "lib"):
+            here = here[:-1]
+        out = []
+        for m_ in re.finditer(r"\buse\s+((?:\w+::)+)(\{[^}]*\}|\w+)\s*;", txt):
+            names = [x.strip().split(" as ")[0].strip() for x in m_.group(2).strip("{}").split(",")]
+            if short not in names:
+                continue
+            segs = [x for x in m_.group(1).split("::") if x]
+            bases = []
+            if segs[0] == "crate":
+                bases.append(segs[1:])
+            elif segs[0] == "self":
+                bases.append(here + segs[1:])
+            elif segs[0] == "super":
+                k_ = 0
+                while k_ < len(segs) and segs[k_] == "super":
+                    k_ += 1
+                # inside an inline `mod x { .. }` one `super` stays in the file's module: both readings are tried
+                for up in (k_, k_ - 1):
+                    if 0 <= up <= len(here):
+                        bases.append(here[:len(here) - up] + segs[k_:])
+            for b_ in bases:
+                for cand in ("src/" + "/".join(b_) + ".rs", "src/" + "/".join(b_ + ["mod"]) + ".rs"):
+                    if b_ and cand not in out and os.path.exists(os.path.join(root, cand)):
+                        out.append(cand)
+        return out
 
     def try_inline(self, name, args):
         root, rel, owner = self.file_root
@@ -2217,6 +2264,11 @@ class Interp:
             return len(recv.items)
         if m == "is_empty" and isinstance(recv, (VArr, VIter)):
             return len(recv.items) == 0
+        if m in ("is_some", "is_none") and not args and isinstance(recv, VOpaque) and recv.name in ("Some", "None") \
+                and len(recv.args) == (1 if recv.name == "Some" else 0):
+            return (recv.name == "Some") == (m == "is_some")        # a constructed Option: concrete
+        if m in ("is_ok", "is_err") and not args and isinstance(recv, (VOk, VErr)):
+            return isinstance(recv, VOk) == (m == "is_ok")
         if m in PURE_GETTERS and not args and isinstance(recv, (Sym, VOpaque, Poly)):
             return VOpaque(m, [recv])
         if m in ("wrapping_shl", "wrapping_shr") and isinstance(recv, U64) and len(args) == 1 and isinstance(args[0], int):
@@ -2556,6 +2608,14 @@ class Interp:
             return UNIT
         if m == "last" and isinstance(recv, (VArr, VIter)) and not args:
             return VOpaque("Some", [recv.items[-1]]) if recv.items else VOpaque("None")
+        if m == "first" and isinstance(recv, (VArr, VIter)) and not args:
+            return VOpaque("Some", [recv.items[0]]) if recv.items else VOpaque("None")
+        if m == "filter" and len(args) == 1 and isinstance(args[0], VClosure) and isinstance(recv, VOpaque) \
+                and recv.name in ("Some", "None") and len(recv.args) == (1 if recv.name == "Some" else 0):
+            # Option::filter: the predicate's verdict is decided per path
+            if recv.name == "None":
+                return recv
+            return recv if self.cond_value(self.call_closure(args[0], [recv.args[0]]), e) else VOpaque("None")
         if m in ("mul_assign", "add_assign", "sub_assign") and len(args) == 1 and e["recv"]["k"] in ("path", "unary", "index"):
             nv = self.arith({"mul_assign": "*", "add_assign": "+", "sub_assign": "-"}[m], recv, args[0], e)
             self.assign(e["recv"], nv, env)
